@@ -100,7 +100,8 @@ MIN_COUNTERS = {
               "transform_deterministic_component_checked": 2100, "untransform_random_component_checked": 6000,
               "space_sample_columns_checked": 1500, "sp_vs_ot_spaces_compared": 165, "empirical_statistics_vs_numpy": 6000,
               "empirical_quantile_vs_law": 810, "parametric_statistics_checked": 120, "two_dimensional_inputs_checked": 420,
-              "spaces_edited_before_sampling": 150, "renamed_random_variables_not_last": 100, "joint_rebuilt_after_renaming_a_random_variable_not_last": 50, "renamed_deterministic_variables": 15, "removed_random_variables": 30, "random_variables_added_after_construction": 70, "filtered_spaces": 35, "extracted_uncertain_spaces": 15, "joint_distributions_rebuilt": 40, "spaces_copied_with_add_variables_from": 25, "spaces_queried_before_the_edits": 150, "as_dict_keys_checked_against_their_law": 1800, "joint_distribution_order_checked": 450},
+              "spaces_edited_before_sampling": 150, "renamed_random_variables_not_last": 100, "joint_rebuilt_after_renaming_a_random_variable_not_last": 50, "renamed_deterministic_variables": 15, "removed_random_variables": 30, "random_variables_added_after_construction": 70, "filtered_spaces": 35, "extracted_uncertain_spaces": 15, "joint_distributions_rebuilt": 40, "spaces_copied_with_add_variables_from": 25, "spaces_queried_before_the_edits": 150, "as_dict_keys_checked_against_their_law": 1800, "joint_distribution_order_checked": 450,
+              "parameters_at_boundary_values": 390, "truncation_bound_exactly_zero_one_sided": 28, "truncation_bound_exactly_zero_two_sided": 27, "python_int_arguments": 160, "affine_transformation_unit_slope_or_zero_offset": 38, "truncation_bound_on_the_mean_median_or_mode": 25, "negative_zero_parameters": 18, "space_random_variables_at_boundary_values": 320, "space_truncation_bound_exactly_zero_one_sided": 5, "deterministic_bounds_at_boundary_values": 50},
     "thorough": {"cdf_vs_closed_form": 660000, "quantile_vs_closed_form": 660000, "cdf_of_icdf": 660000,
                  "icdf_of_cdf": 660000, "moments_vs_closed_form": 28000, "range_checked": 29000, "support_checked": 29000,
                  "dkw_bands_checked": 56000, "sample_mean_checked": 44000, "sp_vs_ot_compared": 9600,
@@ -109,7 +110,8 @@ MIN_COUNTERS = {
                  "sp_vs_ot_spaces_compared": 3400, "empirical_statistics_vs_numpy": 110000,
                  "empirical_quantile_vs_law": 14800, "parametric_statistics_checked": 2200,
                  "two_dimensional_inputs_checked": 7600,
-                 "spaces_edited_before_sampling": 2250, "renamed_random_variables_not_last": 1500, "joint_rebuilt_after_renaming_a_random_variable_not_last": 750, "renamed_deterministic_variables": 225, "removed_random_variables": 450, "random_variables_added_after_construction": 1050, "filtered_spaces": 525, "extracted_uncertain_spaces": 225, "joint_distributions_rebuilt": 600, "spaces_copied_with_add_variables_from": 375, "spaces_queried_before_the_edits": 2250, "as_dict_keys_checked_against_their_law": 27000, "joint_distribution_order_checked": 6750},
+                 "spaces_edited_before_sampling": 2250, "renamed_random_variables_not_last": 1500, "joint_rebuilt_after_renaming_a_random_variable_not_last": 750, "renamed_deterministic_variables": 225, "removed_random_variables": 450, "random_variables_added_after_construction": 1050, "filtered_spaces": 525, "extracted_uncertain_spaces": 225, "joint_distributions_rebuilt": 600, "spaces_copied_with_add_variables_from": 375, "spaces_queried_before_the_edits": 2250, "as_dict_keys_checked_against_their_law": 27000, "joint_distribution_order_checked": 6750,
+                 "parameters_at_boundary_values": 4680, "truncation_bound_exactly_zero_one_sided": 336, "truncation_bound_exactly_zero_two_sided": 324, "python_int_arguments": 1920, "affine_transformation_unit_slope_or_zero_offset": 456, "truncation_bound_on_the_mean_median_or_mode": 300, "negative_zero_parameters": 216, "space_random_variables_at_boundary_values": 3840, "space_truncation_bound_exactly_zero_one_sided": 60, "deterministic_bounds_at_boundary_values": 600},
 }
 SHARD_TIMEOUT = {"quick": 900, "thorough": 4000}
 
@@ -163,7 +165,8 @@ def ot_options(desc):
     tr = desc.get("transform")
     if tr:
         if tr[0] == "affine":
-            kw["transformation"] = f"{tr[1]!r}*x" + (f"+{tr[2]!r}" if tr[2] >= 0 else f"-{-tr[2]!r}")
+            neg = math.copysign(1.0, tr[2]) < 0          # also true for -0.0
+            kw["transformation"] = f"{tr[1]!r}*x" + (f"-{abs(tr[2])!r}" if neg else f"+{tr[2]!r}")
         else:
             kw["transformation"] = "exp(x)"
     tc = desc.get("trunc")
@@ -235,7 +238,7 @@ def cond_pad(desc, x):
     """Half-width in x of the interval inside which the argument of the CDF is not distinguishable."""
     m = abs(x)
     for v in desc["params"].values():
-        if isinstance(v, float):
+        if isinstance(v, (int, float)) and not isinstance(v, bool):
             m = max(m, abs(v))
     tr = desc.get("transform")
     if tr and tr[0] == "affine":
@@ -278,7 +281,69 @@ def law_signature(desc):
             regime.append(p[k] < 1.0)
     if desc["family"] == "triangular":
         regime.append(p["mode"] in (p["minimum"], p["maximum"]))
-    return ("law", feat(desc), tuple(desc["libs"]), tuple(regime))
+    return ("law", feat(desc), tuple(desc["libs"]), tuple(regime), tuple(sorted(set(boundary_tags(desc)))))
+
+
+def _is_int(v):
+    return isinstance(v, int) and not isinstance(v, bool)
+
+
+def boundary_tags(desc):
+    """What is special about the numbers of a law description (computed from the numbers, not from the generator)."""
+    tags = []
+    p = desc["params"]
+    vals = [v for v in p.values() if isinstance(v, (int, float)) and not isinstance(v, bool)]
+    if any(v == 0 for v in vals):
+        tags.append("parameter-zero")
+    if any(isinstance(v, float) and v == 0 and math.copysign(1.0, v) < 0 for v in vals):
+        tags.append("parameter-negative-zero")
+    if any(_is_int(v) for v in vals):
+        tags.append("parameter-python-int")
+    if any(v == 1 for v in vals):
+        tags.append("parameter-one")
+    tc = desc.get("trunc")
+    if tc:
+        one_sided = (tc[0] is None) != (tc[1] is None)
+        for side, b in zip(("lower", "upper"), tc):
+            if b is None:
+                continue
+            if b == 0:
+                tags.append(f"trunc-{side}-zero" + ("-one-sided" if one_sided else "-two-sided"))
+            elif float(b) in (1.0, -1.0):
+                tags.append(f"trunc-{side}-unit")
+            if _is_int(b):
+                tags.append("trunc-python-int")
+    tr = desc.get("transform")
+    if tr and tr[0] == "affine":
+        if abs(tr[1]) == 1:
+            tags.append("slope-unit")
+        if tr[2] == 0:
+            tags.append("offset-zero")
+        if _is_int(tr[1]) or _is_int(tr[2]):
+            tags.append("transform-python-int")
+    tags.extend("gen-" + t for t in desc.get("boundary") or [] if t.startswith("trunc-m"))
+    return tags
+
+
+def count_boundary(desc, rep, where="law"):
+    tags = boundary_tags(desc)
+    if tags:
+        rep.count("parameters_at_boundary_values")
+    for t in tags:
+        if t.endswith("-zero-one-sided"):
+            rep.count("truncation_bound_exactly_zero_one_sided")
+        elif t.endswith("-zero-two-sided"):
+            rep.count("truncation_bound_exactly_zero_two_sided")
+        elif t in ("parameter-python-int", "trunc-python-int", "transform-python-int"):
+            rep.count("python_int_arguments")
+        elif t in ("slope-unit", "offset-zero"):
+            rep.count("affine_transformation_unit_slope_or_zero_offset")
+        elif t.startswith("gen-trunc-m"):
+            rep.count("truncation_bound_on_the_mean_median_or_mode")
+        elif t == "parameter-negative-zero":
+            rep.count("negative_zero_parameters")
+        elif t == "parameter-zero":
+            rep.count("parameters_exactly_zero")
 
 
 def finite(*vals):
@@ -492,6 +557,7 @@ def judge_sample_column(smp, law, desc, sup, rng_, sig, rep, what, case=None):
 def run_law_case(desc, rep, seed):
     law = laws.build(desc)
     rep.case(law_signature(desc), nontrivial=not isinstance(law, laws.Dirac))
+    count_boundary(desc, rep)
     res = {}
     for lib in desc["libs"]:
         res[lib] = judge_dist(lib, desc, law, rep, seed)
@@ -537,6 +603,9 @@ def add_var(ps, lib, v):
         lb = np.array(v["lb"], dtype=float)
         if v["type"] == "integer":
             ps.add_variable(v["name"], v["size"], "integer", lower_bound=lb.astype(int), upper_bound=ub.astype(int))
+        elif v.get("scalar") and v["size"] == 1 and v["ub"][0] is not None:
+            # plain Python numbers (possibly ints, possibly -0.0) where the API accepts numbers
+            ps.add_variable(v["name"], 1, "float", lower_bound=v["lb"][0], upper_bound=v["ub"][0])
         else:
             ps.add_variable(v["name"], v["size"], "float", lower_bound=lb, upper_bound=ub)
         return
@@ -1011,6 +1080,15 @@ def run_space_case(case, rep, seed):
     rep.case(space_signature(case), True)
     if edits:
         count_edits(case, rep)
+    for v in model:
+        if v["role"] == "rand":
+            for d in v["laws"]:
+                if boundary_tags(d):
+                    rep.count("space_random_variables_at_boundary_values")
+                    if any(t.endswith("-zero-one-sided") for t in boundary_tags(d)):
+                        rep.count("space_truncation_bound_exactly_zero_one_sided")
+        elif any(b is not None and (b == 0 or _is_int(b)) for b in list(v["lb"]) + list(v["ub"])) and v["type"] == "float":
+            rep.count("deterministic_bounds_at_boundary_values")
     res = {lib: judge_space(lib, case, model, comps, X, U, rep, seed) for lib in case["libs"]}
     a, b = res.get("SP"), res.get("OT")
     if a and b and len(a["T"]) == len(X) and len(b["T"]) == len(X) and len(a["Xu"]) == len(U) and len(b["Xu"]) == len(U):
@@ -1248,6 +1326,52 @@ def directed_cases():
     law("normal", {"mu": 0.0, "sigma": 1.0}, libs=("OT",), transform=["exp"])
     law("uniform", {"minimum": 0.0, "maximum": 1.0}, libs=("OT",), transform=["affine", 3.0, -1.0], trunc=[0.0, 1.5])
     law("triangular", {"minimum": 0.0, "mode": 1.0, "maximum": 4.0}, libs=("OT",), transform=["affine", -1.0, 0.0], trunc=[-3.0, None])
+    # boundary values: exact zeros of both signs, exact one, Python ints, bounds on the law's own location / mean / mode
+    for b in (0.0, -0.0, 0):
+        law("normal", {"mu": 0.0, "sigma": 1.0}, libs=("OT",), trunc=[b, None])
+        law("normal", {"mu": 0.0, "sigma": 1.0}, libs=("OT",), trunc=[None, b])
+        law("uniform", {"minimum": -1.0, "maximum": 1.0}, libs=("OT",), trunc=[None, b])
+        law("uniform", {"minimum": -1.0, "maximum": 1.0}, libs=("OT",), trunc=[b, None])
+    law("normal", {"mu": 0.5, "sigma": 1.0}, libs=("OT",), trunc=[0.0, 1.0])
+    law("normal", {"mu": -0.5, "sigma": 1.0}, libs=("OT",), trunc=[-1.0, 0.0])
+    law("normal", {"mu": 0.5, "sigma": 2.0}, libs=("OT",), trunc=[0, 1])
+    law("normal", {"mu": 1.0, "sigma": 2.0}, libs=("OT",), trunc=[1.0, None])          # bound on the mean
+    law("triangular", {"minimum": 0.0, "mode": 1.0, "maximum": 3.0}, libs=("OT",), trunc=[None, 1.0])   # bound on the mode
+    law("exponential", {"rate": 1.0, "loc": -1.0}, libs=("OT",), trunc=[0.0, None])
+    law("gumbel", {"scale": 1.0, "loc": 0.0}, via="generic", libs=("OT",), trunc=[None, 0.0])
+    law("uniform", {"minimum": 0.0, "maximum": 1.0}, libs=("OT",), transform=["affine", 1.0, 0.0])
+    law("uniform", {"minimum": 0, "maximum": 1}, libs=("OT",), transform=["affine", 1, 0])
+    law("normal", {"mu": 0.0, "sigma": 1.0}, libs=("OT",), transform=["affine", -1, -0.0])
+    law("normal", {"mu": 1.0, "sigma": 1.0}, libs=("OT",), transform=["affine", 1.0, -1.0], trunc=[0.0, None])
+    law("normal", {"mu": 0, "sigma": 1})
+    law("normal", {"mu": -0.0, "sigma": 1.0})
+    law("uniform", {"minimum": 0, "maximum": 1})
+    law("uniform", {"minimum": -1, "maximum": 0})
+    law("uniform", {"minimum": -0.0, "maximum": 1.0})
+    law("triangular", {"minimum": 0, "mode": 1, "maximum": 2})
+    law("triangular", {"minimum": -1, "mode": 0, "maximum": 0})
+    law("exponential", {"rate": 1, "loc": 0})
+    law("beta", {"alpha": 1, "beta": 1, "minimum": 0, "maximum": 1})
+    law("beta", {"alpha": 2.0, "beta": 1.0, "minimum": -1.0, "maximum": 0.0})
+    law("weibull", {"location": 0, "scale": 1, "shape": 1, "use_weibull_min": True})
+    law("weibull", {"location": 0.0, "scale": 1.0, "shape": 2.0, "use_weibull_min": False})
+    law("lognormal", {"mu": 0, "sigma": 1, "location": 0, "set_log": True})
+    law("lognormal", {"mu": 1, "sigma": 1, "location": 0, "set_log": False})
+    law("gamma", {"k": 1, "rate": 1, "loc": 0}, via="generic")
+    law("logistic", {"mu": 0, "scale": 1}, via="generic")
+    law("rayleigh", {"scale": 1, "loc": 0}, via="generic")
+    law("dirac", {"variable_value": 0}, libs=("OT",))
+    law("dirac", {"variable_value": -0.0}, libs=("OT",))
+    law("dirac", {"variable_value": 1}, libs=("OT",))
+    half = {"kind": "law", "family": "normal", "params": {"mu": 0.0, "sigma": 1.0}, "via": "class", "libs": ["OT"],
+            "transform": None, "trunc": [0.0, None]}
+    neg = {"kind": "law", "family": "uniform", "params": {"minimum": -1, "maximum": 1}, "via": "class", "libs": ["OT"],
+           "transform": None, "trunc": [None, 0]}
+    L.append({"kind": "space", "libs": ["OT"], "n_points": 4, "point_seed": 14, "variables": [
+        {"name": "d", "role": "det", "type": "float", "size": 1, "lb": [0], "ub": [1], "scalar": True},
+        {"name": "u", "role": "rand", "size": 1, "shared": True, "laws": [half]},
+        {"name": "e", "role": "det", "type": "float", "size": 2, "lb": [-1.0, -0.0], "ub": [0.0, 2.0]},
+        {"name": "v", "role": "rand", "size": 2, "shared": True, "laws": [neg]}]})
     # the parameter space of the design-phase probe, and friends
     tri = {"kind": "law", "family": "triangular", "params": {"minimum": 0.0, "mode": 1.0, "maximum": 4.0}, "via": "class",
            "libs": ["SP", "OT"], "transform": None, "trunc": None}
